@@ -61,6 +61,25 @@ type WireRec struct {
 	Ad     *ServiceAd
 	Raw    []byte // kept for control messages, and for data when World.KeepPayload
 	DataTo string // data packets: ToService (fixed 8 bytes, trimmed)
+	// Delivered holds the world times at which the message was handed to the
+	// receiving end (0, 1 or 2 entries).
+	Delivered []time.Duration
+}
+
+func (w *World) delivered(r *WireRec) {
+	if r == nil {
+		return
+	}
+	w.mu.Lock()
+	r.Delivered = append(r.Delivered, w.Now())
+	w.mu.Unlock()
+}
+
+// DeliveredAt returns a copy of the delivery times of r.
+func (w *World) DeliveredAt(r *WireRec) []time.Duration {
+	w.mu.Lock()
+	defer w.mu.Unlock()
+	return append([]time.Duration(nil), r.Delivered...)
 }
 
 // World owns every link and the wire record of one run.
@@ -202,7 +221,12 @@ func (r *WireRec) canon() string {
 
 // Lengths of JSON control messages vary with random IDs only in content, not
 // in size (fixed-length IDs), so Len is canonical.
-func (r *WireRec) canonLen() int { return r.Len }
+func (r *WireRec) canonLen() int {
+	if r.Type == MsgRoute {
+		return 0 // epoch digits may vary
+	}
+	return r.Len
+}
 
 func (w *World) record(l *Link, gen int, from, to string, data []byte, fate string) *WireRec {
 	r := &WireRec{At: w.Now(), Link: l.Name, Gen: gen, From: from, To: to, Type: -1, Len: len(data), Fate: fate}
@@ -322,6 +346,14 @@ func (l *Link) SetExtraDelay(d time.Duration) {
 	l.w.Event("link %s extra delay %d", l.Name, int64(d))
 }
 
+// Calm stops loss, duplication and reordering on the link ("faults stop").
+func (l *Link) Calm() {
+	l.mu.Lock()
+	l.Cfg.Drop, l.Cfg.Dup, l.Cfg.Jitter = 0, 0, 0
+	l.Cfg.FIFO = true
+	l.mu.Unlock()
+}
+
 // Cut severs the current generation: both ends see EOF/errors, in-flight
 // messages are lost.
 func (l *Link) Cut() {
@@ -339,6 +371,12 @@ func (l *Link) Cut() {
 	l.w.Event("link %s cut", l.Name)
 }
 
+func (l *Link) fifo() bool {
+	l.mu.Lock()
+	defer l.mu.Unlock()
+	return l.Cfg.FIFO
+}
+
 func (l *Link) curGen() int {
 	l.mu.Lock()
 	defer l.mu.Unlock()
@@ -350,21 +388,22 @@ func (l *Link) fateOf(gen, side, n int) (fate string, delay time.Duration, dupDe
 	l.mu.Lock()
 	silent := l.silent[side]
 	extra := l.extra
+	cfg := l.Cfg
 	l.mu.Unlock()
 	if silent {
 		return "silent", 0, 0
 	}
 	h := H(l.w.Seed, "fate", l.Name, gen, side, n)
 	u := Unit(h)
-	delay = l.Cfg.Latency + extra
-	if l.Cfg.Jitter > 0 {
-		delay += time.Duration(H(l.w.Seed, "jit", l.Name, gen, side, n) % uint64(l.Cfg.Jitter))
+	delay = cfg.Latency + extra
+	if cfg.Jitter > 0 {
+		delay += time.Duration(H(l.w.Seed, "jit", l.Name, gen, side, n) % uint64(cfg.Jitter))
 	}
 	switch {
-	case u < l.Cfg.Drop:
+	case u < cfg.Drop:
 		return "drop", 0, 0
-	case u < l.Cfg.Drop+l.Cfg.Dup:
-		dd := delay + l.Cfg.Latency/2 + time.Duration(H(l.w.Seed, "dupd", l.Name, gen, side, n)%uint64(l.Cfg.Latency+l.Cfg.Jitter+1))
+	case u < cfg.Drop+cfg.Dup:
+		dd := delay + cfg.Latency/2 + time.Duration(H(l.w.Seed, "dupd", l.Name, gen, side, n)%uint64(cfg.Latency+cfg.Jitter+1))
 		return "dup", delay, dd
 	}
 	return "deliver", delay, 0
@@ -413,11 +452,14 @@ func (s *Session) wake() {
 	}
 }
 
-func (s *Session) push(data []byte, eof bool) {
+func (s *Session) push(data []byte, eof bool, rec *WireRec) {
 	s.mu.Lock()
 	if s.closed || s.severed {
 		s.mu.Unlock()
 		return
+	}
+	if !eof {
+		s.w.delivered(rec)
 	}
 	if eof {
 		s.eof = true
@@ -438,25 +480,31 @@ func (s *Session) Send(data []byte) error {
 	n := s.sendN
 	s.sendN++
 	s.mu.Unlock()
+	if s.w.OverBudget() {
+		// the run has blown its message budget (a flood that does not terminate):
+		// swallow everything so the run can end and report it
+		s.w.Count("fate_budget", 1)
+		return nil
+	}
 	cp := append([]byte(nil), data...)
 	fate, delay, dupDelay := s.l.fateOf(s.gen, s.side, n)
-	s.w.record(s.l, s.gen, s.name, s.peer.name, cp, fate)
+	rec := s.w.record(s.l, s.gen, s.name, s.peer.name, cp, fate)
 	switch fate {
 	case "silent", "drop":
 		return nil
 	}
-	s.schedule(cp, delay)
+	s.schedule(cp, delay, rec)
 	if fate == "dup" {
-		s.schedule(append([]byte(nil), cp...), dupDelay)
+		s.schedule(append([]byte(nil), cp...), dupDelay, rec)
 	}
 	return nil
 }
 
-func (s *Session) schedule(data []byte, delay time.Duration) {
+func (s *Session) schedule(data []byte, delay time.Duration, rec *WireRec) {
 	now := s.w.Now()
 	at := now + delay
 	s.mu.Lock()
-	if s.l.Cfg.FIFO && at <= s.lastAt {
+	if s.l.fifo() && at <= s.lastAt {
 		at = s.lastAt + time.Nanosecond
 	}
 	if at > s.lastAt {
@@ -464,7 +512,7 @@ func (s *Session) schedule(data []byte, delay time.Duration) {
 	}
 	s.mu.Unlock()
 	peer := s.peer
-	time.AfterFunc(at-now, func() { peer.push(data, false) })
+	time.AfterFunc(at-now, func() { peer.push(data, false, rec) })
 }
 
 // Recv implements BackendSession.
@@ -528,7 +576,7 @@ func (s *Session) Close() error {
 		s.lastAt = at
 		s.mu.Unlock()
 		peer := s.peer
-		time.AfterFunc(at-now, func() { peer.push(nil, true) })
+		time.AfterFunc(at-now, func() { peer.push(nil, true, nil) })
 	}
 	return nil
 }
